@@ -6,6 +6,28 @@
 
 #include "nanovm/heap.c"   /* the real code, verbatim (annotated scratch copy when a sidecar is attached) */
 
+struct verif_heap_ghost __verif_h;
+
+/* C14.heap.release.<kind>: vm_release against its contract; the recursive calls inside release_* are replaced by the same
+ * contract (--enforce-contract-rec); lvl = 2: the argument is the object under proof */
+void h_release(void)
+{
+    VmHeap *heap; NanoValue v;
+    __verif_h.lvl = 2;
+    unsigned kc0 = __verif_h.kid_calls;
+    vm_release(heap, v);
+    VERIF_COVER(IS_RC_TAG(v.tag) && __verif_rc0 == 1);
+    VERIF_COVER(IS_RC_TAG(v.tag) && __verif_rc0 >= 2);
+    VERIF_COVER(IS_RC_TAG(v.tag) && __verif_rc0 == 0);
+#if VERIF_HKIND == 7 || VERIF_HKIND == 8 || VERIF_HKIND == 10 || VERIF_HKIND == 12 || VERIF_HKIND == 11
+    VERIF_COVER(__verif_h.kid_calls == kc0 + 1 && __verif_hk > 2);
+#endif
+#if VERIF_HKIND == 0
+    VERIF_COVER(!IS_RC_TAG(v.tag));
+    VERIF_COVER(IS_RC_TAG(v.tag));
+#endif
+}
+
 void h_retain(void)
 {
     NanoValue v;
